@@ -47,7 +47,7 @@ ASSUMPTIONS = [
     "ordering among concurrently running enters/exits and the wrapper type of a surfaced error are unspecified",
     "body 'cancelled' = cancellation requested by the harness and delivered at the body's next suspension point",
 ]
-MINIMUMS = {"monitor:exit-once": 3000, "monitor:cleanup-surfaces": 1000, "monitor:enter-error-surfaces": 200, "cases_with_exit_error": 1000, "cases_with_enter_error": 300, "body_cancelled": 200, "cancelled_while_entering_with_some_entered": 50, "cancellations_injected_around_scope_entry_and_exit": 595, "second_cancellations_injected": 396}
+MINIMUMS = {"monitor:exit-once": 3000, "monitor:cleanup-surfaces": 1000, "monitor:enter-error-surfaces": 200, "cases_with_exit_error": 1000, "cases_with_enter_error": 300, "body_cancelled": 200, "cancelled_while_entering_with_some_entered": 50, "cancellations_injected_around_scope_entry_and_exit": 595, "second_cancellations_injected": 396, "enter_errors_among_value_equal_resources_some_entered": 30}
 JOBS = {"quick": 4, "thorough": 16}
 OPTIMIZED_SHARDS = {"quick": 2, "thorough": 8}  # the same cases once more under `python -O`
 LEVEL_TEXT = (
@@ -90,7 +90,12 @@ def make_block(case: dict[str, Any]) -> dict[str, Any]:
         ds.append({"yield": ys, "enter": en, "exit": ex, "form": y if y in ("list", "empty-list", "generator", "iter", "map", "tuple") else ("bad-generator" if y == "bad-generator" else "auto"), "exc_kind": ("plain", "frozen", "valueeq", "unhashable", "valueeq")[(i * 2 + len(en) + len(ex) + len(case["body"]) + len(case["disposables"])) % 5] if not case.get("same_exc_kind") else case["same_exc_kind"], "falsy": (i + len(case["disposables"])) % 2 == 0, "awaitable": case.get("awaitable_all") or (i + len(en) + len(case["disposables"])) % 3 == 1})
     containers = ("list", "tuple", "generator", "iter", "filter", "map", "Disposables", "list", "dict-keys")
     container = containers[(len(ds) * 3 + sum(len(en) + 2 * len(ex) for en, ex, _ in case["disposables"]) + len(case["body"])) % len(containers)] if ds else "list"
-    return {"op": "block", "kind": "ascope", "name": "blk", "supply": [["SubD1", next(uid)]], "disposables": ds, "disposables_container": case.get("container", container), "body": [{"op": "probe", "id": 1}], "exit": {"kind": case["body"]}, "catch": True}
+    container = case.get("container", container)
+    if container != "dict-keys" and len(ds) >= 2 and case.get("equal", (len(ds) + len(case["body"]) + len(case["disposables"][0][1])) % 3 == 0):
+        # value-equal resources (two connections described by the same address): still separate resources, each entered and exited itself
+        for d in ds:
+            d["equal"] = True
+    return {"op": "block", "kind": "ascope", "name": "blk", "supply": [["SubD1", next(uid)]], "disposables": ds, "disposables_container": container, "body": [{"op": "probe", "id": 1}], "exit": {"kind": case["body"]}, "catch": True}
 
 
 def run_once(case: dict[str, Any], chooser: Chooser) -> tuple[World, str, Any, Sched, dict[str, Any]]:
@@ -182,6 +187,8 @@ def judge(R: Recorder, case: dict[str, Any], chooser: Chooser, W: World, status:
     enter_scripted_fail = any(en.endswith("raise") or y == "bad-generator" for en, _, y in specs)
     if enter_failed:
         R.count("cases_with_enter_error")
+        if any(d.spec.get("equal") for d in ds) and any(d.enter_done for d in ds):
+            R.count("enter_errors_among_value_equal_resources_some_entered")
     if exit_failed:
         R.count("cases_with_exit_error")
     if body == "cancel-self" and body_started:
